@@ -89,7 +89,10 @@ func Valid(t *rapid.T, kind string) string {
 		if !strings.HasSuffix(s, "/") {
 			s += "/"
 		}
-		switch rapid.IntRange(0, 3).Draw(t, "form") {
+		switch rapid.IntRange(0, 4).Draw(t, "form") {
+		case 4:
+			// a directory-style URL (trailing slash) with the archive argument; never with a sub-path in the text
+			s += "dl/?archive=tgz"
 		case 0:
 			s += "pkg.tgz" + sub
 		case 1:
